@@ -80,3 +80,23 @@ extern "C" size_t w_floor2(size_t n)    { return cds::beans::floor2(n); }
 extern "C" size_t w_ceil2(size_t n)     { return cds::beans::ceil2(n); }
 extern "C" bool   w_is_power2(size_t n) { return cds::beans::is_power2(n); }
 extern "C" size_t w_log2(size_t n)      { return cds::beans::log2(n); }
+
+#ifdef VX_SPLIT
+// ---- split_bitstring.h: splitters. State is passed as void* (C mirror structs in split_contracts.inc).
+template <int N> struct vx_bs { uint8_t b[N]; };
+#define VX_SB(N, W, U) \
+    typedef cds::algo::split_bitstring< vx_bs<N>, N, U > sb_##N##_##W; \
+    extern "C" U w_sb_##N##_##W##_cut(const uint8_t* src, size_t* pos, unsigned c) { sb_##N##_##W s(*(const vx_bs<N>*)src, *pos); U r = s.cut(c); *pos = s.bit_offset(); return r; } \
+    extern "C" U w_sb_##N##_##W##_safe_cut(const uint8_t* src, size_t* pos, unsigned c) { sb_##N##_##W s(*(const vx_bs<N>*)src, *pos); U r = s.safe_cut(c); *pos = s.bit_offset(); return r; } \
+    typedef cds::algo::byte_splitter< vx_bs<N>, N, U > bs_##N##_##W; \
+    extern "C" U w_bs_##N##_##W##_cut(const uint8_t* src, size_t* pos, unsigned c) { bs_##N##_##W s(*(const vx_bs<N>*)src, *pos); U r = s.cut(c); *pos = s.bit_offset(); return r; } \
+    extern "C" U w_bs_##N##_##W##_safe_cut(const uint8_t* src, size_t* pos, unsigned c) { bs_##N##_##W s(*(const vx_bs<N>*)src, *pos); U r = s.safe_cut(c); *pos = s.bit_offset(); return r; }
+VX_SB(1, 32, uint32_t) VX_SB(2, 32, uint32_t) VX_SB(4, 32, uint32_t) VX_SB(6, 32, uint32_t) VX_SB(8, 32, uint32_t) VX_SB(16, 32, uint32_t)
+VX_SB(8, 64, uint64_t) VX_SB(16, 64, uint64_t)
+
+#define VX_NS(TAG, T) \
+    typedef cds::algo::number_splitter< T > ns_##TAG; \
+    extern "C" T w_ns_##TAG##_cut(T number, unsigned* shift, unsigned c) { ns_##TAG s(number, *shift); T r = s.cut(c); *shift = (unsigned) s.bit_offset(); return r; } \
+    extern "C" T w_ns_##TAG##_safe_cut(T number, unsigned* shift, unsigned c) { ns_##TAG s(number, *shift); T r = s.safe_cut(c); *shift = (unsigned) s.bit_offset(); return r; }
+VX_NS(u16, unsigned short) VX_NS(i16, short) VX_NS(u32, unsigned) VX_NS(i32, int) VX_NS(u64, unsigned long) VX_NS(i64, long)
+#endif
